@@ -878,7 +878,8 @@ Definition class_declaration (l : lineno) : M stmt :=
      resolve_variable sn ;;;
      (if bytes_eqb cname sn then error "A class cannot inherit from itself." else ret tt) ;;;
      begin_scope ;;;
-     add_local (bs "super") ;;;
+     ok <- add_local (bs "super") ;;
+     (if ok then ret tt else error "Too many variables in function.") ;;;
      define_variable ;;;
      resolve_variable cname ;;;
      s <- get ;;
@@ -946,7 +947,8 @@ Definition for_statement (l : lineno) : M stmt :=
   consume TIn "Expected 'in' after loop variable." ;;;
   it <- expression ;;
   mark_last_initialised ;;;                      (* mark_initialised(loop_var) *)
-  add_local (bs "... temp-iter-var ...") ;;;
+  ok <- add_local (bs "... temp-iter-var ...") ;;
+  (if ok then ret tt else error "Too many variables in function.") ;;;
   mark_initialised ;;;
   push_loop ;;;
   consume TLeftBrace "Expected '{' after loop expression." ;;;
